@@ -25,7 +25,7 @@ add("C02", "exploration",
 add("C01", "exploration",
     "runtime monitoring: reference-model oracle (independent NIP-01 canonicaliser + SHA-256 + independent BIP-340 verifier) over freshly signed hostile events, a tamper catalogue, a full BMP code-point sweep and wrong-canonicalisation forgeries; race detector/checkptr",
     "Every generated event is signed with a real key and must be reported authentic; every alteration from a 25-entry catalogue and every forgery over a non-canonical serialisation must be reported not authentic; Serialize must equal the reference canonical bytes. Held on the events listed in the evidence (all BMP scalars swept each run), not a proof." + RACE,
-    "Trusts kit/canon.go and kit/bip340.go (self-tested on the official BIP-340 vectors at start-up; cross-checks every signed event and 1/8 of the alterations in the thorough tier, 1/16 of the events in quick) and btcec for *signing* only. The end-to-end gate behind Relay.ServeHTTP is exercised by C12.",
+    "Trusts kit/canon.go and kit/bip340.go (self-tested on the official BIP-340 vectors at start-up; cross-checks every signed event and 1/8 of the alterations in the thorough tier, 1/16 of the events in quick) and btcec for *signing* only. The gate behind Relay.ServeHTTP is exercised end to end with EVENT-only WebSocket connections (and more broadly by C12).",
     "DESIGN.md section 4, C01")
 
 add("C03", "exploration",
